@@ -27,6 +27,21 @@ mod port_allocator;
 mod receiver;
 mod sender;
 
+/// Verification hook H3: the private message codec, re-exported for conformance checks of the wire format.
+#[cfg(remoc_verif)]
+#[allow(missing_docs)]
+pub mod verif_codec {
+    pub use super::msg::{ExchangedCfg, MultiplexMsg};
+
+    pub fn encode(msg: &MultiplexMsg) -> Vec<u8> {
+        msg.to_vec()
+    }
+
+    pub fn decode(data: &[u8]) -> Result<MultiplexMsg, String> {
+        MultiplexMsg::read(data).map_err(|err| err.to_string())
+    }
+}
+
 pub use any_storage::{AnyBox, AnyEntry, AnyStorage};
 pub use cfg::{Cfg, PortsExhausted};
 pub use client::{Client, Connect, ConnectError};
